@@ -623,6 +623,7 @@ ClassifyAll ==
 Init == x = <<>>
 Next == \E t \in Tokens : Len(x) + Len(t) <= MaxLen /\ x' = x \o t
 Spec == Init /\ [][Next]_x
-ClassifyInit == x = <<>> /\ ClassifyAll
-ClassifyNext == UNCHANGED x
+(* evaluated in a Next step: TLC worker threads get the enlarged stack (-Xss) that long witnesses need *)
+ClassifyInit == x = <<>>
+ClassifyNext == x = <<>> /\ ClassifyAll /\ x' = <<0>>
 =============================================================================
